@@ -280,6 +280,30 @@ ENTRIES = {
     "mt-drop-aborts": dict(
         body="<executor::mt_executor::Executor as std::ops::Drop>::drop", effect=calls(r"executor::Signal::set$"),
         what="dropping the multi-threaded executor raises the abort signal on every path"),
+    # ---- failure reporting (C11)
+    "port-send-throws": dict(
+        bodies=r"^ports::output::(Output|Requestor|UniRequestor)::send::\{closure#0\}$", effect=calls(r"UnwrapOrThrow::unwrap_or_throw$|unwrap_or_throw$"),
+        excuse=variant_is({"None"}, r"Sender::send(_owned)?$"),
+        floor=3, what="a model-side send completes only through unwrap_or_throw (a SendError is thrown, never dropped), unless the only connection filtered the message"),
+    "source-send-throws": dict(
+        bodies=r"^ports::source::(EventSource::event::\{closure#0\}|EventSource::(keyed_event|periodic_event|keyed_periodic_event)::\{closure#0\}::\{closure#0\}|QuerySource::query::\{closure#0\})$",
+        effect=calls(r"unwrap_or_throw$"), floor=5,
+        what="an EventSource / QuerySource action completes only through unwrap_or_throw"),
+    "worker-panic-registered": dict(
+        body="executor::mt_executor::run_local_worker", start=calls(r"^std::panic::catch_unwind$"),
+        effect=calls(r"PoolManager::register_panic$"), excuse=variant_is({"Ok"}, r"catch_unwind$"),
+        what="a panic caught in a worker is registered with the pool manager on every path"),
+    "worker-panic-wakes-executor": dict(
+        body="executor::mt_executor::run_local_worker", start=calls(r"PoolManager::register_panic$"),
+        effect=calls(r"parking::Unparker::unpark$"),
+        what="after registering a panic the worker unparks the executor thread on every path"),
+    "mt-run-checks-panic": dict(
+        body="executor::mt_executor::Executor::run", effect=calls(r"PoolManager::take_panic$"),
+        what="Executor::run (multi-threaded) inspects the registered panic before every return"),
+    "st-run-reports-panic": dict(
+        body="executor::st_executor::ExecutorInner::run", start=calls(r"ScopedLocalKey::set$|ScopedKey::set$"),
+        effect=aggregates("executor::ExecutorError", "Panic"), excuse=variant_is({"Ok"}),
+        what="a panic caught by the single-threaded run loop is returned as ExecutorError::Panic on every path"),
 }
 
 
